@@ -298,7 +298,8 @@ func (r *nodeRun) c08Checks(c *cluster, obs *vnode, rounds []string) {
 					shifted++
 					return []byte(`"` + t.Add(-30*24*time.Hour).Format(time.RFC3339Nano) + `"`)
 				})
-				if priv, ok := keys[m.SenderAddr]; ok && len(m.Signature) > 0 && !bytes.Equal(moved, m.Data) {
+				// only what its sender really signed is signed again in its moved form: a forged message stays forged
+				if priv, ok := keys[m.SenderAddr]; ok && !bytes.Equal(moved, m.Data) && ed25519.Verify(priv.Public().(ed25519.PublicKey), m.Data, m.Signature) {
 					m.Data = moved
 					m.Signature = ed25519.Sign(priv, m.Data)
 				}
